@@ -188,6 +188,151 @@ pub fn build_pos(raw: &RawPos, mode: PosMode) -> PosSpec {
     PosSpec { board: b, gold_to_move: raw.gold_to_move, move_number: move_number_from(raw.mn_sel) }
 }
 
+/// A board on which every piece of `mover` is frozen or blocked (used to steer C04 towards the
+/// immobilisation rung and C05-C07 towards states with very few legal actions). Returns the board
+/// and the squares of the mover's pieces in placement order.
+pub fn immobilised_board(mover: bool, imm: &[(u8, u8, u8)]) -> (Board, Vec<u8>) {
+    let last = !mover;
+    let mut b = Board::empty();
+    let mut used: Vec<u8> = vec![];
+    for &(sqsel, ksel, style) in imm.iter().take(4) {
+        let sq = sqsel % 64;
+        if b.at(sq) != m::EMPTY || used.contains(&sq) || m::is_trap(sq) {
+            continue;
+        }
+        // no mover piece may be adjacent to another mover piece (it would be unfrozen)
+        if m::neighbours(sq).any(|n| b.at(n) != m::EMPTY && m::is_gold(b.at(n)) == mover) {
+            continue;
+        }
+        if style % 3 == 0 {
+            // blocked rabbit: enemy rabbits in front and on both sides (not frozen, cannot move, cannot push)
+            let fwd = if mover { 0 } else { 2 };
+            let mut ok = true;
+            let mut walls = vec![];
+            for d in [fwd, 1u8, 3u8] {
+                if let Some(n) = m::neighbour(sq, d) {
+                    if b.at(n) == m::EMPTY && !m::is_trap(n) && !m::neighbours(n).any(|x| x != sq && b.at(x) != m::EMPTY && m::is_gold(b.at(x)) == mover) {
+                        walls.push(n);
+                    } else if b.at(n) == m::EMPTY || m::is_gold(b.at(n)) == mover {
+                        ok = false;
+                    }
+                }
+            }
+            let enemy_rabbits = b.count(m::mk(last, m::R)) + walls.len();
+            if ok && enemy_rabbits <= 8 && b.count(m::mk(mover, m::R)) < 8 {
+                b.0[sq as usize] = m::mk(mover, m::R);
+                for wsq in walls {
+                    b.0[wsq as usize] = m::mk(last, m::R);
+                }
+                used.push(sq);
+            }
+        } else {
+            // frozen piece: a stronger enemy piece next to it
+            let k = 1 + (ksel % 5); // R..M (an elephant cannot be frozen)
+            if b.count(m::mk(mover, k)) >= m::COMPLEMENT[k as usize] as usize {
+                continue;
+            }
+            let stronger: Vec<u8> = ((k + 1)..=m::E).filter(|&kk| b.count(m::mk(last, kk)) < m::COMPLEMENT[kk as usize] as usize).collect();
+            if stronger.is_empty() {
+                continue;
+            }
+            let ek = stronger[(ksel as usize / 5) % stronger.len()];
+            let spots: Vec<u8> = m::neighbours(sq).filter(|&n| b.at(n) == m::EMPTY && !m::is_trap(n)).collect();
+            if spots.is_empty() {
+                continue;
+            }
+            let n = spots[(style as usize / 3) % spots.len()];
+            b.0[sq as usize] = m::mk(mover, k);
+            b.0[n as usize] = m::mk(last, ek);
+            used.push(sq);
+        }
+    }
+    (b, used)
+}
+
+/// A start one step away from immobilisation: the side `x` has (almost) all pieces frozen or blocked
+/// except one that has just stepped back. Cycling games from here reach mid-turn states in which the
+/// mover has no further step, which is where has_move / can_pass / is_terminal must agree (C07).
+pub fn near_immobile_pos(x_gold: bool, imm: &[(u8, u8, u8)], sel: u8, gold_to_move: bool, mn_sel: u8) -> PosSpec {
+    let (mut b, squares) = immobilised_board(x_gold, imm);
+    let y = !x_gold;
+    // both sides need a rabbit, otherwise the game is over at once
+    if !b.has_rabbit(x_gold) {
+        // a frozen rabbit of x: next to any y piece stronger than a rabbit, away from x pieces
+        'outer: for s in 0..64u8 {
+            let c = b.at(s);
+            if c != m::EMPTY && m::is_gold(c) == y && m::kind(c) > m::R {
+                for n in m::neighbours(s) {
+                    let goal_row = if x_gold { 0 } else { 7 };
+                    if b.at(n) == m::EMPTY && !m::is_trap(n) && n / 8 != goal_row && !m::neighbours(n).any(|q| b.at(q) != m::EMPTY && m::is_gold(b.at(q)) == x_gold) {
+                        b.0[n as usize] = m::mk(x_gold, m::R);
+                        break 'outer;
+                    }
+                }
+            }
+        }
+    }
+    if !b.has_rabbit(y) {
+        let goal_row = if y { 0 } else { 7 };
+        for i in 0..64u8 {
+            let s = (i.wrapping_mul(7).wrapping_add(sel)) % 64;
+            if b.at(s) == m::EMPTY && !m::is_trap(s) && s / 8 != goal_row && !m::neighbours(s).any(|q| b.at(q) != m::EMPTY) {
+                b.0[s as usize] = m::mk(y, m::R);
+                break;
+            }
+        }
+    }
+    // un-immobilise one piece of x: move it one step back to a square where it is not frozen
+    let mut cands: Vec<(u8, u8)> = vec![];
+    for &p in squares.iter() {
+        let c = b.at(p);
+        if c == m::EMPTY || m::is_gold(c) != x_gold {
+            continue;
+        }
+        for d in 0..4u8 {
+            if let Some(n) = m::neighbour(p, d) {
+                if b.at(n) != m::EMPTY || m::is_trap(n) {
+                    continue;
+                }
+                // the step n -> p must be legal for a rabbit (never backward)
+                if m::kind(c) == m::R {
+                    let fwd = if x_gold { 0 } else { 2 };
+                    if m::opposite(d) != fwd && (d == 0 || d == 2) {
+                        continue;
+                    }
+                    if d == fwd {
+                        continue;
+                    }
+                }
+                let mut t = b;
+                t.0[p as usize] = m::EMPTY;
+                t.0[n as usize] = c;
+                if !t.is_frozen(n) {
+                    cands.push((p, n));
+                }
+            }
+        }
+    }
+    if !cands.is_empty() {
+        let (p, n) = cands[(sel as usize * cands.len()) >> 8];
+        let c = b.at(p);
+        b.0[p as usize] = m::EMPTY;
+        b.0[n as usize] = c;
+    }
+    for &t in m::TRAPS.iter() {
+        let c = b.at(t);
+        if c != m::EMPTY && !b.has_friend_adjacent(t, m::is_gold(c)) {
+            b.0[t as usize] = m::EMPTY;
+        }
+    }
+    PosSpec { board: b, gold_to_move, move_number: move_number_from(mn_sel) }
+}
+
+pub fn near_immobile() -> impl Strategy<Value = PosSpec> {
+    (any::<bool>(), prop::collection::vec(pick(), 1..4), any::<u8>(), any::<bool>(), any::<u8>())
+        .prop_map(|(x, imm, sel, g, mn)| near_immobile_pos(x, &imm, sel, g, mn))
+}
+
 fn pick() -> impl Strategy<Value = (u8, u8, u8)> {
     (any::<u8>(), any::<u8>(), any::<u8>())
 }
@@ -233,6 +378,7 @@ pub struct GameParams {
     pub w_setup: u32,
     pub w_pos: u32,
     pub w_small: u32,
+    pub w_frozen: u32,
 }
 
 pub fn game(p: GameParams) -> impl Strategy<Value = Case> {
@@ -240,6 +386,7 @@ pub fn game(p: GameParams) -> impl Strategy<Value = Case> {
         p.w_setup => Just(Start::Setup),
         p.w_pos => raw_pos().prop_map(|r| Start::Pos(build_pos(&r, PosMode::GameStart))),
         p.w_small => raw_pos_small().prop_map(|r| Start::Pos(build_pos(&r, PosMode::GameStart))),
+        p.w_frozen => near_immobile().prop_map(Start::Pos),
     ];
     (start, prop::collection::vec((any::<u16>(), any::<u8>()), 0..=p.max_ops), any::<u64>())
         .prop_map(|(start, ops, aux)| Case { start, ops, aux })
